@@ -6,7 +6,7 @@ from .. import aes_ref
 from ..common import weighted
 
 PLAN = {
-    "quick": {"shards": 4, "cases": 450, "min_nontrivial": 300, "budget_s": 200},
+    "quick": {"shards": 8, "cases": 2000, "min_nontrivial": 8000, "budget_s": 300},
     "thorough": {"shards": 16, "cases": 4000, "min_nontrivial": 5000, "budget_s": 1200},
 }
 RULE = ("cases are (kind, 32-byte key class, plaintext bytes, method) drawn from boundary lengths 0-80/1000 and "
